@@ -278,7 +278,13 @@ func (s *seqRun) limitsProbe() {
 	}
 	s.mk("create", d, "r")
 	s.opRename(d, "r", d, strings.Repeat("R", nmax))
+	if s.lastStatus != nfstypes.NFS3_OK {
+		s.oracle("C19", "name-max-refused", fmt.Sprintf("RENAME to a name of the announced maximum length %d was refused", nmax))
+	}
 	s.opRename(d, strings.Repeat("R", nmax), d, strings.Repeat("R", nmax+1))
+	if s.lastStatus == nfstypes.NFS3_OK {
+		s.oracle("C19", "name-beyond-max-accepted", fmt.Sprintf("RENAME to a name of length %d (announced maximum %d) was accepted", nmax+1, nmax))
+	}
 	s.opReaddir(d, 0, 0xffffffff)
 	f := s.mk("create", d, "big")
 	if f == nil {
